@@ -5,7 +5,7 @@ namespace Hv.C13
 
 /-- The kernel-checked decision for the facts extracted from /repo on this run. -/
 theorem verdict :
-    (classify Generated.factsC13).Sound (Holds (cfgOf Generated.factsC13)) (HoldsExcept (cfgOf Generated.factsC13)) :=
+    (classify Generated.factsC13).Sound (Full Generated.factsC13) (HoldsExcept (cfgOf Generated.factsC13)) :=
   classify_sound _
 
 #eval IO.println (verdictLine "C13" (classify Generated.factsC13))
@@ -16,6 +16,36 @@ theorem verdict :
 #print axioms apply_wf_partial
 #print axioms untouched_bytes
 #print axioms untouched_leaf_bytes
+#print axioms untouched_target
+#print axioms apply_refines_spec
+#print axioms apply_refines_spec_partial
+#print axioms apply_error_class
+#print axioms op_agrees
+#print axioms Hv.Patch.applyOps_agrees
+#print axioms Hv.Patch.applyOps_error_class_conv
+#print axioms Hv.Patch.noSplice_single
+#print axioms Hv.Patch.merge_rejected_class
+#print axioms witness_removeVal_container
+#print axioms not_refinesSpec_of_scalar
+#print axioms apply_refines_spec_unvalidated_partial
+#print axioms atomic_fold
+#print axioms patchFields_refines
+#print axioms witness_spliced_opaque
+#print axioms inc_keeps_format
+#print axioms common
+#print axioms Hv.Patch.walk_refines
+#print axioms Hv.Patch.walk_resolve
+#print axioms Hv.Patch.editAt_spec
+#print axioms Hv.Patch.extractTop_parse
+#print axioms Hv.Patch.applyOp_carries
+#print axioms Hv.Patch.hSet_siblings
+#print axioms Hv.Patch.hInc_siblings
+#print axioms Hv.Patch.hDelete_siblings
+#print axioms Hv.Patch.hRemoveAt_siblings
+#print axioms Hv.Patch.hRemoveVal_siblings
+#print axioms Hv.Patch.hMerge_siblings
+#print axioms Hv.Patch.hAppend_keeps
+#print axioms Hv.Patch.autoCreate_keeps
 #print axioms ops_atomic
 #print axioms ops_atomic_fold
 #print axioms cond_unmet
